@@ -59,7 +59,7 @@ class Gen:
         styles = ["pos", "pos", "nobias2", "nn", "nn"]
         if self.ok("linear_kw"):
             styles += ["bias_kw", "weight_kw"]
-        if self.vocab == "quant":
+        if self.vocab == "quant" and self.ok("u_forms"):
             styles += ["u_pos", "uu"]
         st = r.choice(styles)
         if self.o.get("force") == "linear_kw" and "linear_kw" not in self.used_shapes:
@@ -190,7 +190,7 @@ class Gen:
         if self.o.get("force") == "sdpa_mask_pos" and "sdpa_mask_pos" not in self.used_shapes:
             styles = ["mask_pos"]
         st = r.choice(styles)
-        use_u = self.vocab == "quant" and r.random() < 0.3 and st in ("plain", "causal")
+        use_u = self.vocab == "quant" and self.ok("u_forms") and r.random() < 0.3 and st in ("plain", "causal")
         attrs: Dict[str, Any] = {"style": st}
         if st.startswith("mask"):
             attrs["mask"] = b.buf([T, T], r.choice(["boolmask", "floatmask"]))
@@ -262,6 +262,19 @@ class Gen:
         if kind == "three":
             out = b.op("mul", [out, cur], self.shape(cur))
         return out
+
+    def glu(self, cur: str) -> str:
+        """An operation that returns a tuple (chunk) followed by getitem nodes: a gated unit."""
+        r, b = self.r, self.b
+        d = self.D(cur)
+        if d % 2:
+            return self.unary(cur)
+        half = self.shape(cur)[:-1] + [d // 2]
+        ch = b.op("chunk2", [cur], half, kind="tuple")
+        x1 = b.op("getitem", [ch], half, i=0)
+        x2 = b.op("getitem", [ch], half, i=1)
+        gate = b.op(r.choice(["silu", "gelu", "tanh"]), [x2], half)
+        return b.op("mul", [x1, gate], half)
 
     def towers(self, cur: str) -> str:
         """Two residual blocks on parallel branches (neither is an ancestor of the other),
@@ -355,7 +368,8 @@ class Gen:
             vocab = r.choice([7, 11])
             ids = b.inp(batch, kind="ids", vocab=vocab)
             if r.random() < 0.5:
-                cur = b.op("nn_embedding", [ids], batch + [d0], mod=b.mod("Embedding", vocab, d0))
+                cur = b.op("nn_embedding", [ids], batch + [d0],
+                           mod=b.mod("Embedding", vocab, d0, padding_idx=r.choice([None, None, 0])))
             else:
                 cur = b.op("embedding", [ids], batch + [d0], w=b.param([vocab, d0], 1.0))
             if start == "embed_sum" and self.ok("skip_plain_sum"):
@@ -374,7 +388,7 @@ class Gen:
             if self.vocab == "track":
                 kinds += ["fanout", "fanout", "intmask"]
             if self.vocab in ("unitscale", "track"):
-                kinds += ["towers"]
+                kinds += ["towers", "glu"]
             steps.append(r.choice(kinds))
         for _ in range(want_res):
             steps.insert(r.randrange(len(steps) + 1), "residual")
@@ -412,6 +426,8 @@ class Gen:
                 cur = self.residual(cur)
             elif s == "towers":
                 cur = self.towers(cur) if self.nres < 4 else self.unary(cur)
+            elif s == "glu":
+                cur = self.glu(cur)
             elif s == "fanout":
                 cur = self.fanout(cur)
             elif s == "intmask":
